@@ -37,6 +37,9 @@ CLAIMS = {
     'C20': dict(
         text="Obligation audit of every call to an `unsafe` callee in the library (56 sites on the current tree; found from callee signatures in MIR so macro-expanded sites are included). Machine-discharged: index/range bounds from dominating guards with helper inlining and no-underflow side conditions (BOUND), tabled non-zero shift idioms under dominating guards (NONZERO-LOCAL), binary-search comparators that never return Equal (COMPARATOR), const-generic precondition entailment for the unsafe precision changers (PRECOND), core NonZero guarantee and forwards inside unsafe fns (TRUSTED-TYPE/FORWARD), entry index of the Huffman table walks. Data-dependent sites are TRUSTED-DATA: their invariants are enumerated in `assumptions`, and their structural half is checked: owning model types are built from strictly validated data only (a user-implementable IterableEntropyModel does not count), lookup tables have their length established, no unchecked access relies on an invariant that a safe `&mut` accessor can break, unsafe traits are implemented for std types only, no transmute/raw-pointer dereference. Unrecognised or new unsafe operations fail closed. Not decided: the TRUSTED-DATA invariants themselves (cdf monotonicity, Huffman node indices) and wrap-dependent arithmetic.",
         tech="unsafe-site obligation audit over MIR: difference-bound proofs, dominating-guard idiom table, comparator scan, const-generic entailment, who-may-construct / length-establishment / &mut-escape rules"),
+    'C10': dict(
+        text="Decides, for every path and configuration, that the quantile handed to a model by the three decoders is below 2^PRECISION (reduced modulo 2^PRECISION, under a dominating strict guard whose failing arm returns InvalidData, or on the PRECISION == BITS edge), that the lookup models and the quantizer check that bound before their first use of the quantile, and that only the documented front-end errors are constructed (ANS none, range InvalidData, chain OutOfCompressedData). Not decided: absence of arithmetic panics, termination of the quantizer search, that the returned symbol belongs to the support (value-level; e.g. a wrong skip loop inside a model is not detected).",
+        tech="bounded-value abstract domain over the value graph with dominating-guard recognition; error-constructor inventory"),
 }
 
 NA = {
